@@ -329,7 +329,8 @@ func (db *DB) Fold(fn func(key []byte, value []byte) bool) error {
 		}
 
 		// 将遍历的每项交给传入函数处理
-		if !fn(iterator.Key(), value) {
+		// 项改变不会同步数据库: B 树与跳表索引的迭代器返回的是索引自身持有的 key, 须交出副本
+		if !fn(append([]byte(nil), iterator.Key()...), value) {
 			// 函数返回 false 时终止遍历
 			break
 		}
